@@ -297,12 +297,15 @@ class _InMemoryBackend(backend.Backend):
     """Constructor."""
     super().__init__()
 
-    if name is None or name not in _in_memory_results:
-      study = _InMemoryResult(name, num_examples)
-      if name is not None:
-        _in_memory_results[name] = study
-    else:
-      study = _in_memory_results[name]
+    # NOTE: workers of the same sampling may be constructed concurrently, the
+    # get-or-create of the named study must be atomic among them.
+    with _in_memory_lock:
+      if name is None or name not in _in_memory_results:
+        study = _InMemoryResult(name, num_examples)
+        if name is not None:
+          _in_memory_results[name] = study
+      else:
+        study = _in_memory_results[name]
 
     if group is None:
       group = str(threading.get_ident())
@@ -314,21 +317,22 @@ class _InMemoryBackend(backend.Backend):
 
     # NOTE(daiyip): algorithm can continue if it's already set up with the same
     # DNASpec, or we will setup the algorithm with input DNASpec.
-    if algorithm.dna_spec is None:
-      algorithm.setup(dna_spec)
-    elif symbolic.ne(algorithm.dna_spec, dna_spec):
-      raise ValueError(
-          f'{algorithm!r} has been set up with a different DNASpec. '
-          f'Existing: {algorithm.dna_spec!r}, New: {dna_spec!r}.')
-
-    if early_stopping_policy:
-      if early_stopping_policy.dna_spec is None:
-        early_stopping_policy.setup(dna_spec)
-      elif early_stopping_policy.dna_spec != dna_spec:
+    with _in_memory_lock:
+      if algorithm.dna_spec is None:
+        algorithm.setup(dna_spec)
+      elif symbolic.ne(algorithm.dna_spec, dna_spec):
         raise ValueError(
-            f'{early_stopping_policy!r} has been set up with a different '
-            f'DNASpec. Existing: {early_stopping_policy.dna_spec!r}, '
-            f'New: {dna_spec!r}.')
+            f'{algorithm!r} has been set up with a different DNASpec. '
+            f'Existing: {algorithm.dna_spec!r}, New: {dna_spec!r}.')
+
+      if early_stopping_policy:
+        if early_stopping_policy.dna_spec is None:
+          early_stopping_policy.setup(dna_spec)
+        elif early_stopping_policy.dna_spec != dna_spec:
+          raise ValueError(
+              f'{early_stopping_policy!r} has been set up with a different '
+              f'DNASpec. Existing: {early_stopping_policy.dna_spec!r}, '
+              f'New: {dna_spec!r}.')
 
     if kwargs:
       logging.warning(
@@ -389,3 +393,7 @@ class _InMemoryBackend(backend.Backend):
 
 # Global dictionary for locally sampled in-memory results by name.
 _in_memory_results: Dict[str, _InMemoryResult] = {}
+
+# Lock for the first-caller initialization shared among concurrent workers:
+# the registration of a named study and the setup of its algorithm.
+_in_memory_lock = threading.Lock()
